@@ -649,7 +649,7 @@ def inject(ctx):
         a0, a1 = strip(e[2][0]), strip(e[2][1])
         okb = a0[0] == 'upvar' and (a1[0] in ('var', 'field') or is_call(a1, 'clone'))
         # second argument is the function's own (original) name
-        okb = okb and any(isinstance(x, tuple) and x[0] == 'field' and x[2] == 'name' for x in walk(e[2][1]))
+        okb = okb and original_name_ok(cf, fb[0]['term']['args'][1])
     ren = [g for s in cf.switches() for g in [s] if is_call(s['cond'], 'contains')]
     fs = None
     for bi in cf.normal_blocks():
@@ -689,6 +689,70 @@ def inject(ctx):
             detw = show(pv)[:100]
     ctx.ob(['C07', 'C17'], 'R-SLP', 'C07|forwarder-keeps-everything-else', okw,
            'an injected function is a copy of the base\'s function in which only the name (on a clash) and the body are replaced — documentation, visibility, signature and convention are kept: %s' % detw, loc(cf.span))
+
+
+def original_name_ok(cf, op):
+    """the operand is the *original* name of the function being re-exposed: every definition that can reach it reads `<F>.name`
+    (clone / borrow, or the value moved out by mem::replace / mem::take) at a point no write to `<F>.name` can reach since F
+    was (re)initialised in this iteration"""
+    def sites(l, seen):
+        out = []
+        if l in seen:
+            return out
+        seen.add(l)
+        for d in cf.defs().get(l, []):
+            bi, si, kind, payload, span = d
+            if kind == 'rv' and payload['k'] == 'Use' and payload['op'].get('k') in ('Copy', 'Move') and not payload['op']['place']['proj']:
+                out += sites(payload['op']['place']['local'], seen)
+            else:
+                out.append(d)
+        return out
+    if op.get('k') not in ('Copy', 'Move') or op['place']['proj']:
+        return False
+    ds = sites(op['place']['local'], set())
+    if not ds:
+        return False
+    for d in ds:
+        bi, si, kind, payload, span = d
+        e = strip_refs(cf.expr_of_def(d))
+        taken = False
+        if e[0] == 'call' and e[1].endswith('::clone') and e[2]:
+            src = strip_refs(e[2][0])
+        elif e[0] == 'call' and re.search(r'mem::(replace|take)$', e[1]) and e[2]:
+            src = strip_refs(e[2][0])
+            taken = True
+        else:
+            src = e
+        if not (src[0] == 'field' and src[2] == 'name'):
+            return False
+        holder = src[1]
+        while holder[0] in ('ref', 'deref'):
+            holder = holder[1]
+        if holder[0] != 'var':
+            # the iterator element itself (never written)
+            if taken or not any(isinstance(y, tuple) and y[0] == 'payload' and y[2] == 'Some' for y in walk(holder)):
+                return False
+            continue
+        F = holder[1]
+        inits = {x[0] for x in cf.defs().get(F, [])}
+        writes = [(x[0], 'st') for x in cf.stores().get(F, []) if x[3]['place']['proj'] and x[3]['place']['proj'][0].get('name') == 'name']
+        for c in cf.calls(lambda r: r['path'] and re.search(r'mem::(replace|take|swap)$', r['path'])):
+            a0 = strip_refs(cf.expr_of_operand(c['term']['args'][0]))
+            if a0[0] == 'field' and a0[2] == 'name' and strip_refs(a0[1])[:2] == ('var', F) and not (kind == 'call' and c['block'] == bi):
+                writes.append((c['block'], 'call'))
+        for wb, wk in writes:
+            if wb == bi and wk == 'st' and kind == 'call':
+                return False        # statement before this block's terminator
+            if wb != bi and bi in cf.reach(wb, stop=inits):
+                return False
+    return True
+
+
+def strip_refs(e):
+    e = strip(e)
+    while isinstance(e, tuple) and e and e[0] in ('ref', 'deref') and len(e) > 1:
+        e = strip(e[1])
+    return e
 
 
 # ------------------------------------------------------------------------------------------------
@@ -769,4 +833,4 @@ def hierarchy(ctx):
         bool(find_calls(expand(f, pe[1][0]), 'Iterator::chain'))
     re_ = f.expr_of_call(recs[0]['term'])
     okr = any(find_calls(expand(f, a), 'Iterator::chain') for a in re_[2][1:]) and bool(find_calls(re_[2][0], 'get_region_name_and_type_definition'))
-    ctx.ob(['C07'], 'R-SLP', 'DFS|path-and-type', okp and okr, 'listed entry = (path so far ++ this field, this region\'s type); the descent continues in the base\'s type definition with the extended path', where)
+    ctx.ob(['C07', 'C13'], 'R-SLP', 'DFS|path-and-type', okp and okr, 'listed entry = (path so far ++ this field, this region\'s type); the descent continues in the base\'s type definition with the extended path', where)
